@@ -17,6 +17,8 @@ Definition is_break (c : N) : bool :=
 Definition is_nl_byte (c : N) : bool := (c =? 10) || (c =? 13).
 (* the three further breaks of str.splitlines that the property's texts do not contain *)
 Definition is_sep_ctl (c : N) : bool := (c =? 28) || (c =? 29) || (c =? 30).
+(* all single-character breaks of CPython's str.splitlines *)
+Definition is_py_break (c : N) : bool := is_break c || is_sep_ctl c.
 
 Definition cons_head {A} (c : A) (ls : list (list A)) : list (list A) :=
   match ls with [] => [[c]] | l :: r => (c :: l) :: r end.
